@@ -453,6 +453,11 @@ example : (match applyNext (F := Unit) (some (.full ⟨[48], .ift, 7, 100⟩)) (
     (fun _ => .ok ()) [([48], .applied)] with | .error e => e | .ok _ => "ok") = "err:EmptyPatchList" := by
   decide
 
+/-- why the client must not re-insert selected uris (ift_extend before fix 980e661): overwriting
+un-applies the uri, so the termination measure of `extension_terminates` is lost -/
+example : appliedCount (fetchOverwrite (fun _ => []) [([48], .applied)] [[48]]) = 0 ∧
+    appliedCount (fetchMissing (fun _ => []) [([48], .applied)] [[48]]) = 1 := by decide
+
 end Examples
 
 end FontVerif.C19
